@@ -178,9 +178,24 @@ impl Scenario for S5a {
                         stream.push(7_000_000 + g.below(i + 1));
                     }
                 }
+                // a few elements of medium frequency, spread over the stream
+                for (j, cnt) in [5usize, 9, 17, 100, 1000, 3000].iter().enumerate() {
+                    for _ in 0..*cnt {
+                        let at = g.usize(stream.len() + 1);
+                        stream.insert(at, 9_000_000 + j as u64);
+                    }
+                }
                 shape = "more-than-65536-tracked-elements";
             }
-            return LossyCase { width, epsilon, shape: shape.into(), thresholds: vec![0.0, epsilon, 0.1, 0.5], stream, clear_at: 0, clone_from_at: 0 };
+            // thresholds whose frequency bound (s - eps) * n lies just above 2^16 / 2^17 at the end of the stream
+            let mut thresholds = vec![0.0, epsilon, 0.1, 0.5, 1.0];
+            for b in [65_541.0, 131_077.0] {
+                let t = epsilon + b / stream.len() as f64;
+                if t <= 1.0 {
+                    thresholds.push(t);
+                }
+            }
+            return LossyCase { width, epsilon, shape: shape.into(), thresholds, stream, clear_at: 0, clone_from_at: 0 };
         }
         let (width, epsilon) = if g.chance(2, 3) {
             // mostly narrow windows (many pruning ticks per stream), sometimes wide ones whose
